@@ -11,7 +11,7 @@ use pgp::{
     packet::{SignatureConfig, SignatureType},
     ser::Serialize as _,
     types::{
-        CompressionAlgorithm, DecryptionKey, EncryptionKey, EskType, KeyDetails, KeyVersion,
+        CompressionAlgorithm, DecryptionKey, EncryptionKey, EskType, KeyVersion,
         Password, S2kParams, SignatureBytes, SigningKey, StringToKey, Timestamp,
         VerifyingKey,
     },
@@ -254,7 +254,7 @@ fn expected_legal(s: &Shape) -> bool {
     true
 }
 
-fn build(c: &Case) -> Result<pgp::errors::Result<SignedSecretKey>, String> {
+pub fn build(c: &Case) -> Result<pgp::errors::Result<SignedSecretKey>, String> {
     let s = &c.shape;
     let version = if s.v6 { KeyVersion::V6 } else { KeyVersion::V4 };
     let mut b = SecretKeyParamsBuilder::default();
@@ -489,7 +489,7 @@ pub fn run(c: &Case) -> Outcome {
         "{s:?} seed {} force {:?}/{}",
         c.seed, c.force_draw, c.mode
     );
-    let mut fail = |o: &mut Outcome, sig: &str, e: String| {
+    let fail = |o: &mut Outcome, sig: &str, e: String| {
         o.push(format!("C07:{sig}"), format!("{ctx}: {e}"));
     };
     let mut classes: Vec<&'static str> = Vec::new();
